@@ -471,7 +471,7 @@ namespace c15
 
       // ---------------------------------------------------------------- derivative consistency
       if constexpr(has_grad) if(opt.fd_check)
-      {
+      [&]{
         Fe fe(space);
         const LD h = LD(1) / LD(256);
         for(Index k = 0; k < ncells; ++k)
@@ -554,11 +554,11 @@ namespace c15
           }
           fe.finish();
         }
-      }
+      }();
 
       // ---------------------------------------------------------------- duality
       if constexpr(Desc_::has_node_func())
-      {
+      [&]{
         Fe fe(space);
         for(Index k = 0; k < ncells; ++k)
         {
@@ -597,11 +597,11 @@ namespace c15
           }
           fe.finish();
         }
-      }
+      }();
 
       // ---------------------------------------------------------------- reproduction
       if constexpr(Desc_::has_node_func())
-      {
+      [&]{
         bool complete = false;
         auto fs = function_set(geoms, complete);
         c.count(complete ? "repro_complete_sets" : "repro_partial_sets");
@@ -664,11 +664,11 @@ namespace c15
             fe.finish();
           }
         }
-      }
+      }();
 
       // ---------------------------------------------------------------- conformity across the shared facet
       if(ncells >= 2 && Desc_::conformity() != conf_functional_only)
-      {
+      [&]{
         Fe fa(space), fb(space);
         for(int iv = 0; iv < 2; ++iv)
         {
@@ -718,7 +718,7 @@ namespace c15
           if(D >= 2) min_pts = SI::is_simplex ? npts : npts;
           c.check(shared_pts >= 2 * min_pts, kp + " conf.vacuous", [&]{ return "only " + std::to_string(shared_pts) + " lattice points found on the shared facet"; });
         }
-      }
+      }();
     }
   };
 
